@@ -291,7 +291,57 @@ def fd_check(c, sub, items, x, h, symmetric=None, dofs=None):
         c.traces += 1
         if es > 1e-10:
             c.bad(sub + "/symmetry", "matrix of a hyperelastic body / conservative constraint is not symmetric", float(es), 0)
+    # the system is a function of the values it is given: a separate container with the same values (the pattern of a top-level
+    # field x0) yields the same vector and matrix as the items' own container
+    if hasattr(x, "copy") and hasattr(x, "fields"):
+        try:
+            x2 = x.copy()
+            r2 = np.asarray(fem.tools.fun(items, x2), float)
+            K2 = fem.tools.jac(items, x2).toarray()
+            c.trans += 2
+            c.traces += 1
+            if np.abs(K2 - K).max() > 1e-12 * scale or np.abs(r2 - r0).max() > 1e-12 * max(np.abs(r0).max(), 1e-300):
+                c.bad(sub + "/separate-container", "vector / matrix assembled for a separate container holding the same values differ from those of the items' own container", dict(matrix=float(np.abs(K2 - K).max() / scale), vector=float(np.abs(r2 - r0).max())), 0, 1e-12)
+        finally:
+            set_values(x, x0)
+            fem.tools.fun(items, x)
     return K
+
+
+def item_history(c, sub, make_item, field, states, depth=3):
+    """call histories on ONE item object: every sequence (<= depth) over {vector, matrix} x {field at state A, field at state B,
+    no field argument}; each returned vector / matrix must equal that of a FRESH item evaluated at the state the item was last
+    given (items are functions of the state, nothing about earlier states may be remembered).  `states`: dict name -> values
+    of the first field; the item is created while the field holds the first state."""
+    names = list(states)
+    ref = {}
+    for nm in names:
+        field.fields[0].values[:] = states[nm]
+        ref[nm] = (make_item().assemble.vector(field).toarray(), make_item().assemble.matrix(field).toarray())
+    ops = [(w, X) for w in ("vector", "matrix") for X in names + [None]]
+    nh = 0
+    for d_ in range(1, depth + 1):
+        for seq in itertools.product(range(len(ops)), repeat=d_):
+            field.fields[0].values[:] = states[names[0]]
+            item = make_item()
+            cur = names[0]
+            for step, k in enumerate(seq):
+                w, X = ops[k]
+                if X is not None:
+                    field.fields[0].values[:] = states[X]
+                    cur = X
+                got = (getattr(item.assemble, w)(field) if X is not None else getattr(item.assemble, w)()).toarray()
+                c.trans += 1
+                want = ref[cur][0 if w == "vector" else 1]
+                sc = max(np.abs(want).max(), np.abs(ref[cur][1]).max() * 1e-6, 1e-300)
+                if got.shape != want.shape or np.abs(got - want).max() > 1e-12 * sc:
+                    lab = " > ".join(f"{ops[i][0]}({'field@' + ops[i][1] if ops[i][1] else ''})" for i in seq[: step + 1])
+                    c.bad(f"{sub}/history={lab}", f"{w} returned after this call history on one item differs from a fresh item at the last given state", float(np.abs(got - want).max() / sc) if got.shape == want.shape else list(got.shape), 0, 1e-12)
+                    break
+            nh += 1
+    c.traces += nh
+    c.outcomes.add(f"{sub}-histories={nh}")
+    field.fields[0].values[:] = states[names[0]]
 
 
 class Ctx:
@@ -473,6 +523,9 @@ def run(case):
         mpc = fem.MultiPointConstraint(field, points=pts, centerpoint=len(mesh2.points) - 1, skip=case["skip"], multiplier=10.0)
         fd_check(c, "K", [body, mpc], field, 2e-5 * hm, symmetric=True)
         fd_check(c, "K-mpc-only", [mpc], field, 2e-5 * hm, symmetric=True)
+        if not case.get("mixed"):
+            uA = field.fields[0].values.copy()
+            item_history(c, "mpc", lambda: fem.MultiPointConstraint(field, points=pts, centerpoint=len(mesh2.points) - 1, skip=case["skip"], multiplier=10.0), field, dict(A=uA, B=uA * -0.6 + 0.01), depth=2)
         return c.result(dict(case=case["key"], unknowns=int(values_of(field).size), constrained_points=len(pts)))
     if kind == "contact":
         mesh, region, field = make_field(case["mesh"], "renum", case["fk"], seed)
@@ -501,6 +554,14 @@ def run(case):
         con = fem.MultiPointContact(field, points=pts, centerpoint=cp, skip=tuple(skip), multiplier=10.0)
         K = fd_check(c, "K", [body, con], field, 1e-5, symmetric=True)
         Kc = fd_check(c, "K-contact-only", [con], field, 1e-5, symmetric=True)
+        if case["pattern"] in ((1, 0, 1), (0, 0, 0), (1, 1, 1)) and "offset" not in case:
+            # call histories over two states with DIFFERENT open / closed patterns (the complementary one)
+            uA = field.fields[0].values.copy()
+            uB = uA.copy()
+            for k, p in enumerate(pts):
+                gap = mesh2.points[cp, ax] - mesh2.points[p, ax]
+                uB[p, ax] = gap - 0.2 if case["pattern"][k] else gap + 0.1
+            item_history(c, "contact", lambda: fem.MultiPointContact(field, points=pts, centerpoint=cp, skip=tuple(skip), multiplier=10.0), field, dict(A=uA, B=uB), depth=3)
         r = con.assemble.vector(field).toarray().reshape(-1, nd)
         active = int((np.abs(r[pts, ax]) > 0).sum())
         c.outcomes.add(f"closed={active}")
